@@ -96,7 +96,9 @@ func (e extractor) extract(node ast.Node) {
 		}
 		e.file.Messages = append(e.file.Messages, po.Message{
 			Comment: po.Comment{
-				ExtractedComments: []string{node.Desc},
+				// one comment line per line of the description: a newline inside
+				// a "#." line would end the comment and corrupt the entry
+				ExtractedComments: strings.Split(node.Desc, "\n"),
 				References:        []string{fmt.Sprintf("id=%d%v", node.ID, pluralVar)},
 			},
 			Ctxt:     node.Meaning,
